@@ -172,7 +172,10 @@ class Run(Oracles):
             if not pending:
                 break
             for t in pending:
-                t.cancel()
+                try:
+                    t.cancel()
+                except RecursionError:
+                    pass      # a task that (through a gather) awaits itself: cancelling recurses; it is abandoned with the loop
             try:
                 loop.run_until_complete(asyncio.wait(pending, timeout=0))
                 loop.run_until_complete(asyncio.sleep(0))
